@@ -1,6 +1,8 @@
 import TucanProofs.Lemmas.V2000
 import TucanProofs.Lemmas.V2000File
 import TucanProofs.Lemmas.Tables
+import TucanProofs.Lemmas.Files
+import TucanProofs.Lemmas.FilesExample
 /-!
 # C08 — the V2000 reader agrees with V3000 on the same molecule
 
@@ -62,6 +64,41 @@ theorem C08_connection_table (h0 h1 h2 countsTail : Str) (atoms : List V2Atom) (
   graphAttributesV2000_spec h0 h1 h2 countsTail atoms bonds lists bl blockLines tail hatoms hna hnb hnl hbonds
     hskipB hskipL hblock
 
+/-- **C08 itself: the two readers agree.**  Let `m` be any molecule (atoms with written symbol — an element
+symbol, `D` or `T` — charge, radical, isotope mass; bonds with a type).  A V3000 connection table that states
+`m` (in any spelling `C07_connection_table_every_spelling` covers: consecutive indices, properties in any
+order with the last `CHG=`/`RAD=`/`MASS=` being the molecule's) and a V2000 connection table that states `m`
+— charges and radicals EITHER by the atom-block charge codes OR by `M  CHG` / `M  RAD` lines that list every
+atom with a value exactly once (any number of entries per line, any number of lines, any order, unrelated lines
+in between; the atom-block codes are then arbitrary and superseded), isotopes by `M  ISO` lines in the same
+manner, `D` / `T` by the symbol — are read as the same atom dictionary, up to the spelling of the coordinates,
+and the same bond dictionary. -/
+theorem C08_readers_agree (m : Mol) (hm : m.Ok) (coords : List (Str × Str × Str))
+    (lines3 : List Str) (atoms3 : List AtomEntry) (bonds3 : List BondEntry)
+    (f3 : IsV3000File lines3 atoms3 bonds3) (s3 : V3States m coords atoms3 bonds3)
+    (lines2 : List Str) (atoms2 : List V2Atom) (bonds2 : List V2Bond) (bl : List BlockLine)
+    (f2 : IsV2000File lines2 atoms2 bonds2 bl) (s2 : V2States m atoms2 bonds2 bl) :
+    graphAttributesV3000 lines3 = .ok (m.atomDict coords, m.bondDict) ∧
+    graphAttributesV2000 lines2 = .ok (m.atomDict (v2Coords atoms2), m.bondDict) :=
+  ⟨v3000_reads_mol m hm coords lines3 atoms3 bonds3 f3 s3, v2000_reads_mol m hm lines2 atoms2 bonds2 bl f2 s2⟩
+
+/-- **… and hence the same TUCAN string** (text level: any header lines, any of the three line-ending
+styles in either file; for every oracle meeting the bliss contract). -/
+theorem C08_same_string (O : CanonOracle) (m : Mol) (hm : m.Ok) (coords : List (Str × Str × Str))
+    (text3 : Str) (lines3 : List Str) (atoms3 : List AtomEntry) (bonds3 : List BondEntry)
+    (t3 : IsTextOf text3 lines3) (f3 : IsV3000File lines3 atoms3 bonds3)
+    (v3 : ∀ l3, lines3[3]? = some l3 → EndsInWord l3 (cs "V3000")) (s3 : V3States m coords atoms3 bonds3)
+    (text2 : Str) (lines2 : List Str) (atoms2 : List V2Atom) (bonds2 : List V2Bond) (bl : List BlockLine)
+    (t2 : IsTextOf text2 lines2) (f2 : IsV2000File lines2 atoms2 bonds2 bl)
+    (v2 : ∀ l3, lines2[3]? = some l3 → EndsInWord l3 (cs "V2000")) (s2 : V2States m atoms2 bonds2 bl)
+    (g3 g2 : Graph) (str3 str2 : Str)
+    (hg3 : graphFromMolfileText text3 = .ok g3) (hg2 : graphFromMolfileText text2 = .ok g2)
+    (hs3 : tucanOf O.order g3 = .ok str3) (hs2 : tucanOf O.order g2 = .ok str2) : str3 = str2 :=
+  readsAs_same_string O m m hm hm (sameIdentity_refl m) coords (v2Coords atoms2) s3.nAtoms.2
+    (by simp [v2Coords, s2.nAtoms]) text3 text2
+    (v3000_text_reads_mol m hm coords text3 lines3 atoms3 bonds3 t3 f3 v3 s3)
+    (v2000_text_reads_mol m hm text2 lines2 atoms2 bonds2 bl t2 f2 v2 s2) g3 g2 str3 str2 hg3 hg2 hs3 hs2
+
 /-- the charge codes of the atom block, as the CTfile specification defines them (regenerated table) -/
 theorem C08_charge_codes : chargeCode 0 = (none, none) ∧ chargeCode 1 = (some 3, none) ∧ chargeCode 2 = (some 2, none) ∧
     chargeCode 3 = (some 1, none) ∧ chargeCode 4 = (none, some 2) ∧ chargeCode 5 = (some (-1), none) ∧
@@ -72,6 +109,19 @@ theorem C08_charge_codes : chargeCode 0 = (none, none) ∧ chargeCode 1 = (some 
 /-- D and T keep denoting hydrogen-2 and hydrogen-3 (the same table the V3000 reader uses) -/
 theorem C08_hydrogen_isotopes :
     detectHydrogenIsotopes ['D'] = (['H'], 2) ∧ detectHydrogenIsotopes ['T'] = (['H'], 3) := ⟨rfl, rfl⟩
+
+/-- non-vacuity of `C08_readers_agree` / `C08_same_string`: the molecule `[13C]-O(-)-D`, its V3000 file (one atom
+line with blank runs, split inside a token) and its V2000 file (decoy charge code superseded by `M  CHG`,
+`M  ISO`, an unrelated line, a line after `M  END`) meet every hypothesis; both readers return the molecule's
+dictionaries, and both texts (CRLF after every line / LF without a final one) are read. -/
+example : FilesExample.mol.Ok ∧ IsV3000File FilesExample.lines3 FilesExample.atoms3 FilesExample.bonds3 ∧
+    V3States FilesExample.mol FilesExample.coords3 FilesExample.atoms3 FilesExample.bonds3 ∧
+    IsV2000File FilesExample.lines2 FilesExample.atoms2 FilesExample.bonds2 FilesExample.block ∧
+    V2States FilesExample.mol FilesExample.atoms2 FilesExample.bonds2 FilesExample.block ∧
+    IsTextOf (fileText ['\r', '\n'] FilesExample.lines3) FilesExample.lines3 ∧
+    IsTextOf (fileTextNoTrail ['\n'] FilesExample.lines2) FilesExample.lines2 :=
+  ⟨FilesExample.mol_ok, FilesExample.isV3000File, FilesExample.v3States, FilesExample.isV2000File,
+   FilesExample.v2States, FilesExample.isTextOf3, FilesExample.isTextOf2⟩
 
 /-- non-vacuity: a block with an ISO line for atom 2, an unrelated line and a CHG line renders -/
 example : (propLine (cs "ISO") [(2, 13)]) = cs "M  ISO  1   2  13" := by decide
